@@ -215,3 +215,29 @@ Proof.
       induction a as [|x a IH]; intros [|y b] H; try discriminate; [reflexivity|]. injection H as H. cbn [zip_sub zip_add map]. rn. f_equal; [ring | apply IH; exact H].
     + intro i. unfold isub. rewrite Nat.eqb_refl. clear. revert i. induction a as [|x a IH]; intros [|i]; cbn [zip_sub nth]; rn; try ring. apply IH.
 Qed.
+
+(* ---------------- the boundary case: real particles already centred (centre of mass exactly zero).
+   None of the theorems above excludes it (their only hypothesis is a non-zero total mass).  Stated explicitly: move_to_com then leaves
+   the real particles where they are, but the variational particles still move, by the variation of the centre of mass. *)
+Theorem centred_system_boundary : forall l, let M := Msum (l_m l) in M <> 0 -> MQ (l_m l) (l_q l) = 0 ->
+  var1_shift RNum M l = (MQ (l_m l) (l_dq l) + MQ (l_dm l) (l_q l)) / M.
+Proof.
+  intros l M HM H0. unfold var1_shift, sum_m. rewrite shift1_acc, sumf_Msum. rn. rewrite !Rplus_0_l.
+  change (map (fun e : R * R * R * R => snd (fst e)) l) with (l_dm l).
+  rewrite (S1sum_closed M _ l HM), H0. field. exact HM.
+Qed.
+Theorem centred_real_particles_stay : forall ms qs, ms <> [] -> length ms = length qs -> pos_prefix 0 ms -> MQ ms qs = 0 ->
+  move_to_com RNum ms qs = qs.
+Proof.
+  intros ms qs Hne Hl Hp H0. destruct (com_is_weighted_mean ms qs Hne Hl Hp) as (_ & P & E).
+  unfold move_to_com. rewrite E, H0. replace (0 / Msum ms) with 0 by (field; lra). apply shift_0.
+Qed.
+(* an equal-mass binary at x = +1, -1 (centred) whose first body's x is varied: the real particles do not move, the variations shift by 1/2 *)
+Example centred_binary_variation_moves :
+  let l := [(1, 1, 0, 1); (1, -1, 0, 0)] in
+  MQ (l_m l) (l_q l) = 0 /\ move_to_com RNum (l_m l) (l_q l) = l_q l /\ var1_shift RNum 2 l = 1 / 2 /\ move_to_com_var1 RNum 2 l = [1 / 2; - (1 / 2)].
+Proof.
+  cbv zeta. unfold l_m, l_q, move_to_com_var1, var1_shift, sum_m, move_to_com, com_q, shift. cbn [map fst snd MQ com_range sumf shift1].
+  rn. unfold Rltb. repeat (destruct (Rlt_dec _ _); try lra). cbn [snd].
+  split; [lra|]. split; [f_equal; [field | f_equal; field]|]. split; [field|]. f_equal; [field | f_equal; field].
+Qed.
